@@ -550,6 +550,12 @@ func (r *runner) token(sel string) (uint64, *ua.NodeID) {
 
 func (r *runner) resolveID(ref string) uint32 {
 	switch {
+	case strings.HasPrefix(ref, "lastitem"): // k-th monitored item from the end of those created so far
+		k, _ := strconv.Atoi(ref[8:])
+		if k < len(r.items) {
+			return r.items[len(r.items)-1-k]
+		}
+		return 88870
 	case strings.HasPrefix(ref, "last"): // k-th subscription from the end of those created so far
 		k, _ := strconv.Atoi(ref[4:])
 		if k < len(r.subs) {
